@@ -185,6 +185,20 @@ theorem flatten_sound (ρ : Env) (A : Arrays) (op : Op) (t : Ty) (h : op.isAC = 
     · rfl
   | _ => rfl
 
+theorem insertE_perm (x : Expr) (l : List Expr) : (insertE x l).Perm (x :: l) := by
+  induction l with
+  | nil => exact List.Perm.refl _
+  | cons y ys ih =>
+    simp only [insertE]
+    split
+    · exact List.Perm.refl _
+    · exact (List.Perm.cons y ih).trans (List.Perm.swap x y ys)
+
+theorem sortE_perm (l : List Expr) : (sortE l).Perm l := by
+  induction l with
+  | nil => exact List.Perm.refl _
+  | cons x xs ih => exact (insertE_perm x (sortE xs)).trans (List.Perm.cons x ih)
+
 /-- the normaliser preserves the value of every expression in every environment -/
 theorem normE_sound (ρ : Env) (A : Arrays) (e : Expr) : eval ρ A (normE e) = eval ρ A e := by
   induction e with
@@ -193,8 +207,8 @@ theorem normE_sound (ρ : Env) (A : Arrays) (e : Expr) : eval ρ A (normE e) = e
     split
     · rename_i hac
       rw [eval_rebuild]
-      have hp : ((flatten op t (normE a) ++ flatten op t (normE b)).mergeSort Expr.le).Perm
-          (flatten op t (normE a) ++ flatten op t (normE b)) := List.mergeSort_perm _ _
+      have hp : (sortE (flatten op t (normE a) ++ flatten op t (normE b))).Perm
+          (flatten op t (normE a) ++ flatten op t (normE b)) := sortE_perm _
       rw [evalR_perm _ (fun a b c => evalOp_assoc op t a b c hac) (fun a b => evalOp_comm op t a b (Or.inl hac))
         (hp.map (eval ρ A)), List.map_append,
         evalR_append _ (fun a b c => evalOp_assoc op t a b c hac) _ _
@@ -251,5 +265,57 @@ theorem canonVar_eq {b1 b2 : List Stmt} {o1 o2 : Nat} (h : canonVar o1 b1 = cano
       have r2 := inlineVar_sound A ρ o2 b2 [] e2 h2
       rw [envOf_nil] at r1 r2
       rw [r1, r2, ← normE_sound ρ A e1, ← normE_sound ρ A e2, h]
+
+theorem call_congr {f g : Fn} (h : canonFn f = canonFn g) (hs : (canonRet g.body).isSome) (A : Arrays)
+    (args : List Int) : call A f args = call A g args := by
+  unfold canonFn at h
+  simp only [Prod.mk.injEq] at h
+  obtain ⟨hp, _, hb⟩ := h
+  unfold call
+  rw [hp, canonRet_eq hb hs]
+
+theorem normC_sound (ρ : Env) (A : Arrays) (c : Cond) : evalC ρ A (normC c) = evalC ρ A c := by
+  induction c with
+  | lt a b => simp only [normC, evalC, normE_sound]
+  | le a b => simp only [normC, evalC, normE_sound]
+  | eq a b => simp only [normC, evalC, normE_sound]
+  | ne a b => simp only [normC, evalC, normE_sound]
+  | and c d ihc ihd => simp only [normC, evalC, ihc, ihd]
+  | or c d ihc ihd => simp only [normC, evalC, ihc, ihd]
+  | oneOf e vs => simp only [normC, evalC, normE_sound]
+  | unknown w => rfl
+
+theorem normStmts_runEnv (A : Arrays) (b : List Stmt) : ∀ ρ, runEnv A ρ (normStmts b) = runEnv A ρ b := by
+  induction b with
+  | nil => intro ρ; rfl
+  | cons s rest ih =>
+    intro ρ
+    have ih' : ∀ ρ, runEnv A ρ (List.map normS rest) = runEnv A ρ rest := ih
+    cases s with
+    | set n e => simp only [normStmts, List.map_cons, normS, runEnv, normE_sound, ih']
+    | setIf c n e => simp only [normStmts, List.map_cons, normS, runEnv, normE_sound, normC_sound, ih']
+    | ret e => rfl
+    | retIf c e => simp only [normStmts, List.map_cons, normS, runEnv, normC_sound, ih']
+    | unknown w => rfl
+
+theorem normStmts_runRet (A : Arrays) (b : List Stmt) : ∀ ρ, runRet A ρ (normStmts b) = runRet A ρ b := by
+  induction b with
+  | nil => intro ρ; rfl
+  | cons s rest ih =>
+    intro ρ
+    have ih' : ∀ ρ, runRet A ρ (List.map normS rest) = runRet A ρ rest := ih
+    cases s with
+    | set n e => simp only [normStmts, List.map_cons, normS, runRet, normE_sound, ih']
+    | setIf c n e => simp only [normStmts, List.map_cons, normS, runRet, normE_sound, normC_sound, ih']
+    | ret e => simp only [normStmts, List.map_cons, normS, runRet, normE_sound]
+    | retIf c e => simp only [normStmts, List.map_cons, normS, runRet, normE_sound, normC_sound, ih']
+    | unknown w => rfl
+
+/-- blocks with equal statement-wise normal forms behave alike -/
+theorem normStmts_eq {b1 b2 : List Stmt} (h : normStmts b1 = normStmts b2) (A : Arrays) (ρ : Env) :
+    runEnv A ρ b1 = runEnv A ρ b2 ∧ runRet A ρ b1 = runRet A ρ b2 := by
+  constructor
+  · rw [← normStmts_runEnv A b1, ← normStmts_runEnv A b2, h]
+  · rw [← normStmts_runRet A b1, ← normStmts_runRet A b2, h]
 
 end GoSem
